@@ -566,8 +566,9 @@ def _part_machine(ctx, n):
 # (b) reader vs repacker schedules
 
 
-def build_sched_repo(path):
-    """Two packs + loose objects + an unreachable object; returns ids that exist throughout."""
+def build_sched_repo(path, midx=False):
+    """Two packs + loose objects + an unreachable object (+ a multi-pack-index over the packs); returns ids that exist
+    throughout."""
     from dulwich.objects import Blob
     from dulwich.repo import Repo
 
@@ -580,12 +581,19 @@ def build_sched_repo(path):
         c.set((b"gc",), b"auto", b"0")
         c.write_to_path()
         reach = repos.closure(repos.dulwich_getter(r.object_store), sorted(set(r.refs.as_dict().values())))
+        if midx:
+            r.object_store.write_midx()
+            if not os.path.exists(os.path.join(path, ".git", "objects", "pack", "multi-pack-index")):
+                raise HarnessError("write_midx left no multi-pack-index")
     finally:
         r.close()
     return sorted(reach)
 
 
 def reader_prog(path, ids, mode, out):
+    precache = mode.endswith("+midx")
+    mode = mode.split("+")[0]
+
     def prog():
         from dulwich.repo import Repo
 
@@ -594,6 +602,8 @@ def reader_prog(path, ids, mode, out):
             r = Repo(path)
             try:
                 s = r.object_store
+                if precache:
+                    len(s.packs)  # the handle knows its packs (as after should_run_gc / count_pack_files) before they are replaced
                 for i in ids:
                     try:
                         if mode == "getitem":
@@ -737,6 +747,7 @@ def execute_sched(ctx, template, ids, mode, kind, strategy, case, check="sched")
 
 
 def _probe_ids(template, ids, mode):
+    mode = mode.split("+")[0]
     if mode in ("contains_packed", "get_unpacked_object"):
         from dulwich.repo import Repo
 
@@ -757,7 +768,10 @@ def _part_sched(ctx, item):
     mode, kind, bound, cap = item
     tdir = ctx.scratch.new("t")
     template = os.path.join(tdir, "repo")
-    ids = build_sched_repo(template)
+    # "<mode>+midx": the same reader on a repository whose packs are also listed in a multi-pack-index (lookups then go
+    # through the index's own fast path, which has to cope with a pack that vanishes just the same)
+    with_midx = mode.endswith("+midx")
+    ids = build_sched_repo(template, midx=with_midx)
     if kind == "git-script":
         stage_git_repack(template)
     probe = _probe_ids(template, ids, mode)
@@ -795,6 +809,7 @@ def run(ctx):
     modes = ["getitem", "contains", "get_raw", "contains_packed_or_loose", "contains_packed", "get_unpacked_object", "iter", "subset"]
     kinds = ["repack", "pack_loose", "gc", "git-script"]
     items = [(m, k, 1, ctx.scale(120, 5000)) for m in modes for k in kinds]
+    items += [(m + "+midx", k, 1, ctx.scale(120, 5000)) for m in ("getitem", "get_raw", "contains", "subset") for k in ("repack", "gc", "git-script")]
     ctx.parallel(_part_sched, items)
 
 
@@ -804,7 +819,7 @@ def replay(ctx, check, case):
     elif check == "sched":
         tdir = ctx.scratch.new("t")
         template = os.path.join(tdir, "repo")
-        ids = build_sched_repo(template)
+        ids = build_sched_repo(template, midx=case["mode"].endswith("+midx"))
         if case["kind"] == "git-script":
             stage_git_repack(template)
         mode = case["mode"]
